@@ -9,6 +9,8 @@ vm.go / ref_counter.go / stack.go / slot.go maintain it, `reach` = what a walk f
 import NeoModel.Proofs.VmAcctBase
 import NeoModel.Proofs.VmAcctUnwind
 import NeoModel.Proofs.VmAcctDepth
+import NeoModel.Proofs.VmAcctGasSim
+import NeoModel.Proofs.VmAcctTry
 import NeoModel.Proofs.VmAcctGas
 import NeoModel.Proofs.VmAcctSpecSizeRun
 import NeoModel.Proofs.ScriptCheck
@@ -383,6 +385,67 @@ theorem limit_readings (a lim : Int) :
     (cmpOf Generated.VmOrder.tryCheckOp a lim = false ↔ a + 1 ≤ lim) ∧
     Generated.VmOrder.sizeCheckOnlyWithoutPanic = true ∧ Generated.VmOrder.tryCheckBeforePush = true :=
   ⟨(size_check_reading a lim).2.2.2, (depth_check_reading a lim).2.2.2, (try_check_reading a lim).2.2.2, rfl, rfl⟩
+
+/-! ### gas inside the machine that is tied to the real VM, and its refinement to the abstract machine -/
+
+open NeoModel.VmGas in
+/-- **acct_gas_bound.** The accounting machine with gas (`gasStep`: tied to the real VM instruction by
+instruction, the consumed gas is an observation and the FAULT "gas limit exceeded" is predicted by the
+model) never reaches a state — HALT included — with more gas consumed than the limit. -/
+theorem acct_gas_bound (L base : Nat) (g : GSt) (n : Nat) (h : GRun L base g n) : g.gas ≤ L := VmAcct.acct_gas_bound h
+
+open NeoModel.VmGas in
+/-- **acct_refines.** Projected to (gas, depth, status), every successful instruction of that machine IS
+one step of the abstract priced machine of `total` / `gas_bound`, with an explicit effect that satisfies
+`Eff.okFor` (hypothesis `Compat`: the opcode byte fits the instruction — RET iff 0x40, valid opcode — and
+a SYSCALL handler charges at least 1). -/
+theorem acct_refines (g g' : GSt) (L b burn : Nat) (op : Op) (unw : Option (Nat × Bool)) (ext : Bool) (hr : Run g.s)
+    (hL : g.limit = some L) (hc : Compat b op burn) (h : gasStep g b op burn unw ext = some g') :
+    gstep { limit := L, base := g.base } g.proj b (effOf op b burn g') = g'.proj ∧ (effOf op b burn g').okFor b :=
+  ⟨(acct_sim hr hL hc h).1, acct_eff_okFor hr hc h⟩
+
+open NeoModel.VmGas in
+/-- **acct_total.** Hence the termination bound holds for the tied machine itself: under a gas limit L and
+a price base ≥ 1 no sequence of successfully executed instructions is longer than
+(L+1)·(MaxInvocationStackSize+1)+1. -/
+theorem acct_total (L base : Nat) (hb : 1 ≤ base) (g : GSt) (n : Nat) (h : GRun L base g n) :
+    n ≤ (L + 1) * (maxDepth + 1) + 1 := (VmAcct.acct_total hb h).1
+
+set_option maxRecDepth 50000 in
+open NeoModel.VmGas in
+/-- non-vacuity: `PUSH1` (0x11) under limit 5, base 5 is such a run and consumes exactly the limit; under
+limit 4 the model faults before executing it. -/
+example : (∃ g, GRun 5 5 g 1 ∧ g.gas = 5) ∧ gasStep { limit := some 4, base := 5 } 0x11 (.s (.generic 0 1)) 0 none false = none := by
+  constructor
+  · have hc : Compat 0x11 (.s (.generic 0 1)) 0 :=
+      ⟨by decide, ⟨fun h => by simp [Op.isRet] at h, fun h => by simp [opRET] at h⟩, fun h => by simp [opSYSCALL] at h, fun h => absurd rfl h⟩
+    have hs : gasStep { limit := some 5, base := 5 } 0x11 (.s (.generic 0 1)) 0 none false =
+        some { s := { St.init with c := { heap := [], refs := 1 }, frames := [{ own := some [.prim], isScript := true, retCount := 1 }] },
+               gas := 5, limit := some 5, base := 5 } := by
+      have hcoeff : coeff 0x11 = 1 := by decide
+      simp [gasStep, overLimit, isAbortOp, opABORT, opABORTMSG, hcoeff, step, exec, execS, St.init, St.w, St.setW, St.cur, St.setCur, curOf, setCurOf,
+        ok, W.popN, W.pushPrims, W.push, Ctr.add, addW, Item.cid, maxStackSize]
+    exact ⟨_, GRun.step 0x11 _ 0 none false GRun.init hc hs, rfl⟩
+  · have hcoeff : coeff 0x11 = 1 := by decide
+    simp [gasStep, overLimit, hcoeff]
+
+/-! ### try stacks inside the machine that is tied to the real VM -/
+
+/-- **try_depth.** The try machine (`tstep`: one try stack per context, TRY / ENDTRY / ENDFINALLY as vm.go
+has them, the exception handler found by the model's own `findHandler` — compared with what the real VM
+did on every raising instruction — on top of the accounting machine with gas) never reaches a state in
+which a try stack has more than MaxTryNestingDepth = 16 entries; and its accounting state is a `Run`
+state, so every theorem above applies to the states it reaches. -/
+theorem try_depth (t : TSt) (h : TRun t) : (∀ st ∈ t.tries, st.length ≤ maxTryNestingDepth) ∧ Run t.g.s :=
+  VmAcct.try_depth h
+
+/-- non-vacuity: a context with 16 open TRY blocks — the 17th TRY is a FAULT predicted by the model, the
+16 are within the bound; and the handler search: an exception raised two contexts above a TRY with a
+CATCH unloads 2 contexts and delivers it (k = 2, c = true). -/
+example : tryBad { tries := [List.replicate 16 { hasCatch := true, hasFinally := false }] } .nop (.try_ true false) = true ∧
+    tryBad { tries := [List.replicate 15 { hasCatch := true, hasFinally := false }] } .nop (.try_ true false) = false ∧
+    (findHandler [[], [], [{ hasCatch := true, hasFinally := false }]] 0).map (fun r => (r.1, r.2.1)) = some (2, true) := by
+  decide
 
 /-! ## Part 3: the static script check (Model/ScriptCheck.lean) -/
 
